@@ -230,6 +230,21 @@ class RustFile:
                     raise LostAnchor(f"{p} not found in {self.path}")
                 b = self.mask.find("{", lo + m.end())
                 c = match_brace(self.mask, b)
+            elif p.startswith("fn "):
+                # a function used as a container of nested items
+                m = None
+                for mm in re.finditer(r"\bfn\s+" + re.escape(p[3:].strip()) + r"\b", self.mask[lo:hi]):
+                    if self._depth_at(lo, hi, lo + mm.start()) == 0:
+                        m = mm
+                        break
+                if not m:
+                    raise LostAnchor(f"{p} not found in {self.path}")
+                p_open = self.mask.find("(", lo + m.end())
+                p_close = match_brace(self.mask, p_open)
+                b = find_body_open(self.mask, p_close + 1, hi)
+                if b < 0 or self.mask[b] != "{":
+                    raise LostAnchor(f"{p}: no body")
+                c = match_brace(self.mask, b)
             else:
                 raise LostAnchor(f"bad path component {p}")
             lo, hi = b + 1, c
